@@ -127,6 +127,10 @@ func parseECPrivateKey(namedCurveOID *asn1.ObjectIdentifier, der []byte) (key *e
 	if k.Sign() == 0 || k.Cmp(curveOrder) >= 0 {
 		return nil, errors.New("x509: invalid elliptic curve private key value")
 	}
+	// SM2 private keys are in [1, n-2], GB/T 32918.1-2016 6.1
+	if curve == sm2.P256() && new(big.Int).Add(k, big.NewInt(1)).Cmp(curveOrder) == 0 {
+		return nil, errors.New("x509: invalid elliptic curve private key value")
+	}
 	priv := new(ecdsa.PrivateKey)
 	priv.Curve = curve
 	priv.D = k
